@@ -821,6 +821,7 @@ def _spaced(node):
 
 
 _RUN = _re.compile(r"[A-Za-z_0-9]+")
+_PRIM_TYPES = {"usize", "isize", "u8", "u16", "u32", "u64", "u128", "i8", "i16", "i32", "i64", "i128", "f32", "f64", "bool", "char", "str"}
 _OWNER = {}
 
 
@@ -1146,6 +1147,8 @@ class FragText(str):
                 is_var = (
                     getattr(self, "_implicit", True)
                     and local_pos
+                    and w not in _PRIM_TYPES
+                    and not (wi > 0 and words[wi - 1] == "as")
                     and (w[0].islower() or w[0] == "_")
                     and w not in _KW
                     and w not in hay.bound
@@ -1947,3 +1950,27 @@ def path_conjuncts(root, target):
 
     rec(root, set())
     return found[0] if found else None
+
+
+def resolve_locals(root, e, depth=3):
+    """text of `e` with every identifier that is bound exactly once in `root` by an immutable `let x = init;`
+    replaced by its initialiser (whatever the initialiser reads: this is for comparing what a value *is*, at a
+    use that follows the let directly; it is not a statement about evaluation order)"""
+    lets = {}
+    for s in find(root, "Let"):
+        p = s["pat"]["pat"] if s["pat"].get("k") == "PType" else s["pat"]
+        if p.get("k") == "PIdent" and not p.get("mut") and s.get("init") is not None:
+            lets.setdefault(p["name"], []).append(s["init"])
+
+    def sub(n, d):
+        if isinstance(n, list):
+            return [sub(x, d) for x in n]
+        if not isinstance(n, dict):
+            return n
+        if n.get("k") == "Path" and ident(n) in lets and len(lets[ident(n)]) == 1 and d > 0:
+            init = lets[ident(n)][0]
+            if not any(x.get("k") == "Path" and ident(x) == ident(n) for x in walk(init)):
+                return sub(init, d - 1)
+        return {k: (sub(v, d) if isinstance(v, (dict, list)) and k != "tokens" else v) for k, v in n.items()}
+
+    return unparse(sub(e, depth)).replace(" ", "")
